@@ -100,6 +100,75 @@ pub fn call(op: &str, e: &Ev) -> Option<Out> {
                 Out::Val(v)
             }
         },
+        "sweep" => {
+            // a large seeded workload folded into a short digest (count of accepting results + FNV-1a of all outputs): only meaningful for
+            // comparing configurations with each other (TraceEquiv), e.g. the two limb back-ends on millions of inputs
+            let kind = get_str(e, "kind").to_string();
+            let (seed, start, count) = (get_limbs_u64(e, "seed"), get_limbs_u64(e, "start"), get_limbs_u64(e, "count"));
+            let mut h: u64 = 0xcbf29ce484222325;
+            let mut nok: u32 = 0;
+            let mut fold = |b: &[u8]| {
+                for x in b {
+                    h = (h ^ (*x as u64)).wrapping_mul(0x100000001b3);
+                }
+            };
+            let rnd32 = |i: u64, salt: u64| -> [u8; 32] {
+                let mut out = [0u8; 32];
+                let mut z = seed ^ i.wrapping_mul(0x9e3779b97f4a7c15) ^ salt.wrapping_mul(0xd1342543de82ef95);
+                for c in out.chunks_mut(8) {
+                    z = z.wrapping_add(0x9e3779b97f4a7c15);
+                    let mut v = z;
+                    v = (v ^ (v >> 30)).wrapping_mul(0xbf58476d1ce4e5b9);
+                    v = (v ^ (v >> 27)).wrapping_mul(0x94d049bb133111eb);
+                    v ^= v >> 31;
+                    c.copy_from_slice(&v.to_le_bytes());
+                }
+                out
+            };
+            for i in start..start + count {
+                match kind.as_str() {
+                    "ge_decode" => match Ge::from_bytes(&rnd32(i, 1)) {
+                        Some(p) => {
+                            nok += 1;
+                            fold(&p.to_bytes());
+                        }
+                        None => fold(&[0]),
+                    },
+                    "sign" => {
+                        let (kp, pk) = ed25519::keypair(&rnd32(i, 2));
+                        let msg = i.to_le_bytes();
+                        let sig = ed25519::signature(&msg, &kp);
+                        fold(&pk);
+                        fold(&sig);
+                        nok += ed25519::verify(&msg, &pk, &sig) as u32;
+                    }
+                    "x25519" => fold(&curve25519(&rnd32(i, 3), &rnd32(i, 4))),
+                    "scalar" => {
+                        let mut w = [0u8; 64];
+                        w[..32].copy_from_slice(&rnd32(i, 5));
+                        w[32..].copy_from_slice(&rnd32(i, 6));
+                        fold(&Scalar::reduce_from_wide_bytes(&w).to_bytes());
+                        nok += Scalar::from_bytes_canonical(&rnd32(i, 7)).is_some() as u32;
+                    }
+                    "fe" => {
+                        let (a, b) = (Fe::from_bytes(&rnd32(i, 8)), Fe::from_bytes(&rnd32(i, 9)));
+                        let m = &a * &b;
+                        let d = &a - &b;
+                        let t = &a + &b;
+                        fold(&m.to_bytes());
+                        fold(&d.to_bytes());
+                        fold(&t.to_bytes());
+                        fold(&(&t * &d).to_bytes());
+                        fold(&m.square_and_double().to_bytes());
+                        nok += d.is_nonzero() as u32 + t.is_negative() as u32 + (m == d) as u32;
+                    }
+                    k => panic!("harness: unknown sweep {}", k),
+                }
+            }
+            let mut v = nok.to_le_bytes().to_vec();
+            v.extend_from_slice(&h.to_le_bytes());
+            Out::Val(v)
+        }
         "ge_ops2" => {
             // operator impls and constants not reached by the other operations: -P, P +/- the precomputed identity
             // (GePrecomp::ZERO is the only precomputed point a user can name), the identities in every representation
@@ -115,6 +184,10 @@ pub fn call(op: &str, e: &Ev) -> Option<Out> {
             v.extend_from_slice(&(&p + &Ge::ZERO.to_cached()).to_full().to_bytes());
             v.extend_from_slice(&p.clone().to_partial().clone().to_bytes());
             Out::Val(v)
+        }
+        "scalar_muladd" => {
+            let r = cryptoxide::curve25519::scalar::verif_muladd(&Scalar::from_bytes(&a32(e, "a")), &Scalar::from_bytes(&a32(e, "b")), &Scalar::from_bytes(&a32(e, "c")));
+            Out::Val(r.to_bytes().to_vec())
         }
         "scalar_consts" => {
             // Scalar::ZERO / ONE, derived equality and Clone
